@@ -1,11 +1,88 @@
-"""C01 — rules not implemented yet (fail closed)."""
-EXPLANATION = "not implemented"
-NOT_DECIDED = "everything"
+"""C01 — full load returns every leaf cell exactly once with true geometry, values, units."""
+from __future__ import annotations
+
+from . import io_rules as io
+from . import io_rules2 as io2
+from .config_rules import check_unit_library
+
+EXPLANATION = (
+    "Static rules on src/osyris/io and config/defaults.py: (R1) the record locator read_binary_data is interpreted in a "
+    "polynomial domain: position = sum(count*size) + 8*records (+4), counters advanced as documented, for every "
+    "skip_head/increment/type combination; (R2) every reader's read_header is interpreted with symbolic counters: each "
+    "decoded field sits at the payload start of the record the RAMSES layout (S1) assigns to it and the header length "
+    "equals the layout's, for all ncpu, levelmax, nboundary (both branches), noutput, coarse grid and key size; (R3) per "
+    "(level, domain) block and reader class: owner mode (allocate, cache-line header, 2^ndim x read_variables, footer), "
+    "with every variable read or skipped, consumes the layout's bytes and reads xg/son/variables at the layout's records; "
+    "step_over consumes the same bytes; (R4) Loader.load's protocol skeleton: order, loops and guards of every reader call "
+    "(owner guard domain == cpu_num-1), loop bounds, file names; (R5) leaf rule truth table; (R6) one conjunction mask "
+    "applied to every read variable, leaf mask always included; (R7) values scaled by X.magnitude and labelled X.units of "
+    "the same library entry at every site; (R8) the unit library is evaluated in a dimension domain: every entry has the "
+    "dimension its name states and the coherent factor unit_d^p unit_l^(3p+q) unit_t^r (sqrt(4 pi) for Gaussian B); (R9) "
+    "cell geometry formulas (child offsets over all 8 children, dx, position, level, cpu) as exact identities; (R10) axis "
+    "order of the grid-count table; (R11) vector assembly folded over name sets; derived variables.")
+NOT_DECIDED = ("that pint attaches the right factor to a unit string; that np.concatenate preserves order; float rounding; "
+               "malformed files; nout=-1 directory globbing; ordering types that write more than one bound_key record (A2)")
+TRUSTED = ("CPython ast", "S1 RAMSES layout (sa/specs/ramses_layout.py), cross-validated against a from-spec synthetic output",
+           "S2 dimension tables", "struct/Fortran record sizes")
+TECHNIQUE = ("static analysis: abstract interpretation of the readers' byte-offset bookkeeping in a polynomial domain against a "
+             "layout specification; protocol skeleton extraction; dimension-domain evaluation of the unit library; finite-case "
+             "folding of the leaf rule, child offsets and vector assembly")
 
 
-def not_implemented(run, tree):
-    run.rule("C01.R0", "stub")
-    run.unresolved("stub", "", "rules for C01 are not implemented yet")
+def r1(run, tree):
+    run.rule("C01.R1", "record locator", "D1 (derived by interpreting read_binary_data)", "S1 record framing", floor=12)
+    io.check_record_locator(run, tree)
 
 
-RULES = [not_implemented]
+def r2(run, tree):
+    run.rule("C01.R2", "header layouts agree with RAMSES", "D1 + S1", "S1", floor=20)
+    io.check_amr_header(run, tree)
+    io.check_simple_headers(run, tree)
+
+
+def r3(run, tree):
+    run.rule("C01.R3", "body layout; read = not-read = step-over in bytes", "D1 + sibling agreement + S1", "S1", floor=20)
+    io.check_bodies(run, tree)
+
+
+def r4(run, tree):
+    run.rule("C01.R4", "traversal skeleton of Loader.load", "protocol extraction", "", floor=12)
+    io.check_skeleton(run, tree)
+    from .loader_rules import check_lmax_reset
+    check_lmax_reset(run, tree)
+
+
+def r5(run, tree):
+    run.rule("C01.R5", "leaf rule truth table", "D7", "", floor=5)
+    io2.check_leaf_rule(run, tree)
+
+
+def r6(run, tree):
+    run.rule("C01.R6", "one conjunction mask for every variable", "path rule", "", floor=4)
+    io2.check_one_mask(run, tree)
+
+
+def r7(run, tree):
+    run.rule("C01.R7", "scale/label pairing", "D6", "", floor=5)
+    io2.check_scale_label(run, tree)
+
+
+def r8(run, tree):
+    run.rule("C01.R8", "unit library coherence", "D2 dimension domain", "S2", floor=30)
+    check_unit_library(run, tree)
+
+
+def r9(run, tree):
+    run.rule("C01.R9", "cell geometry formulas; grid-count axes", "D1/D7", "", floor=10)
+    io2.check_geometry(run, tree)
+    io2.check_ngridlevel_axes(run, tree)
+
+
+def r11(run, tree):
+    run.rule("C01.R11", "vector assembly and derived variables", "D7 folding over name sets", "", floor=8)
+    io2.check_vector_assembly(run, tree)
+    from .c13 import check_derived_variables
+    check_derived_variables(run, tree)
+
+
+RULES = [r1, r2, r3, r4, r5, r6, r7, r8, r9, r11]
